@@ -20,6 +20,7 @@ def run(ctx):
     E.r_request_flags(prog, rep)
     E.r_singleuse_bits(prog, rep)
     E.r_value_compare(prog, rep)
+    E.r_deps_reset(prog, rep)
     E.r_epoch_cmp(prog, rep)
     E.r_epoch_writes(prog, rep)
     E.r_scan_guards(prog, rep)
